@@ -71,6 +71,8 @@ POSITIONS = {
     "virt": ("any", False),
     "virt_fwd": ("any", False),        # the virtual field is first reached through a reference from an earlier field
     "virt_static": ("any", False),     # ... or through a static reference Foo.probe from an earlier structure
+    "virt_static_size": ("int", False),  # the static reference sits in a field size (evaluated before constancy is checked)
+    "virt_static_enum": ("int", False),  # ... or is an enum value
     "parg": ("int", False),
     "pearg": ("enum:Aa", False),
     "enumval": ("int", True),
@@ -108,6 +110,12 @@ def build(pos, E):
     elif pos == "virt_static":
         body = "  let probe = %s\n" % E
         prefix = "struct Early:\n  0 [+1]  UInt  e\n  let early = Foo.probe\n"
+    elif pos == "virt_static_size":
+        body = "  let probe = %s\n" % E
+        prefix = "struct Early:\n  0 [+Foo.probe]  UInt:8[]  e\n"
+    elif pos == "virt_static_enum":
+        body = "  let probe = %s\n" % E
+        prefix = "enum Early:\n  EV = Foo.probe\n"
     elif pos == "parg":
         body = "  8 [+1]  Par(%s)  probe\n" % E
     elif pos == "pearg":
@@ -121,7 +129,7 @@ def build(pos, E):
     src = HEADER + prefix + FOO % (pre, body) + extra
     lines = src.split("\n")
     # locate the probe lines: those containing E inside the construct
-    marks = [i + 1 for i, l in enumerate(lines) if E in l and ("probe" in l or "requires" in l or "VV" in l or
+    marks = [i + 1 for i, l in enumerate(lines) if "Foo.probe" in l] + [i + 1 for i, l in enumerate(lines) if E in l and ("probe" in l or "requires" in l or "VV" in l or
                                                                 "maximum_bits" in l or "is_signed" in l or l.strip().startswith("if "))]
     return src, marks
 
@@ -311,6 +319,19 @@ def expected(node, pos):
         v = const_value(node)
         if v is None or not (1 <= v <= 8):
             return None
+    if pos == "offset" and t == "int":
+        v = const_value(node)
+        if isinstance(v, int) and not isinstance(v, bool) and v < 0:
+            return None       # a negative constant start is a layout rule (C14), not a typing one
+    if pos == "virt_static_enum" and t.startswith("enum:"):
+        return None           # an enum value aliasing another enum's value: undocumented, as for `enumval`
+    if pos in ("virt_static_size", "virt_static_enum") and type_of(node) != "ERROR":
+        # a static reference in a size / enum value must be a constant integer
+        if not all(a in ("3", "true", "Aa.AV", "Bb.BV", "im.Aa.AV") for a in _atoms(node, set())) or t != "int":
+            return None if t == "int" else "reject"
+        v = const_value(node)
+        if v is None or not (1 <= v <= 8):
+            return None
     if pos == "maxbits" and t == "int":
         v = const_value(node)
         if v is None or not (2 <= v <= 64):
@@ -335,7 +356,7 @@ def gen_cases(tier):
     _E[tier] = exprs
     n = len(exprs)
     for pos in POSITIONS:
-        if tier == "quick" and pos not in ("virt", "cond", "enumval", "virt_fwd", "virt_static"):
+        if tier == "quick" and pos not in ("virt", "cond", "enumval", "virt_fwd", "virt_static", "virt_static_size", "virt_static_enum"):
             # quick: expressions that are ill-typed in themselves are placed in 4 positions only
             ids = [i for i, e in enumerate(exprs) if type_of(e) != "ERROR"]
         else:
